@@ -42,6 +42,8 @@ func TestDebug(t *testing.T) {
 		sc = f16Variants()[2]
 	case "progchunks":
 		sc = progChunks()
+	case "progcancel":
+		sc = progCancel()
 	default:
 		sc = generate(*flagSeed, *flagID, *flagProperty)
 	}
